@@ -914,12 +914,12 @@ def sink_callee_choice(fn, known_locals):
             for arm in arms:
               if leaves(arm):
                 continue
-              b = arm[-1] if arm else None
-              if isinstance(b, ast.Assign) and len(b.targets) == 1 and \
-                  isinstance(b.targets[0], ast.Name) and \
-                  b.targets[0].id == name and isinstance(
-                      b.value, (ast.Name, ast.Attribute)):
-                binding.append(b)
+              bs = [b for b in arm if isinstance(b, ast.Assign) and len(
+                  b.targets) == 1 and isinstance(b.targets[0], ast.Name) and
+                    b.targets[0].id == name and isinstance(
+                        b.value, (ast.Name, ast.Attribute))]
+              if len(bs) == 1:
+                binding.append(bs[0])
               else:
                 ok = False
             if not ok or not binding or len(binding) != len(stores):
@@ -1572,7 +1572,7 @@ def restore_comp_targets(fn, ref_comps):
   return fn
 
 
-def collapse_fill_loops(fn, known_locals):
+def collapse_fill_loops(fn, known_locals, ref_defs=None):
   """x = [] ; for t in it: x.append(E)   ->   x = [E for t in it]
   x = {} ; for t in it: x[K] = V       ->   x = {K: V for t in it}
   (also with one `if c:` around the fill) for an unknown local x that is
@@ -1594,7 +1594,12 @@ def collapse_fill_loops(fn, known_locals):
                         loop.body) == 1):
           continue
         x = st.targets[0].id
-        if x in known_locals or x in params:
+        # a reference local whose one reference definition is a comprehension
+        # is filled by a comprehension in normal form, too
+        sh = list((ref_defs or {}).get(x, ()))
+        ref_comp = len(sh) == 1 and sh[0][:5] in ('_ = [', '_ = {') and \
+            ' for ' in sh[0]
+        if (x in known_locals and not ref_comp) or x in params:
           continue
         is_list = isinstance(st.value, ast.List) and not st.value.elts
         is_dict = isinstance(st.value, ast.Dict) and not st.value.keys
@@ -1865,8 +1870,7 @@ def normalise_module(modname, tree):
       expand_fill_comprehensions(fn, inv[q].get('defs'))
       index_loops(fn, inv[q].get('loops'))
       before = local_names(fn)
-      if before - known:
-        collapse_fill_loops(fn, known)
+      collapse_fill_loops(fn, known, inv[q].get('defs'))
       restore_comp_targets(fn, inv[q].get('comps'))
       if before - known:
         restore_loop_targets(fn, inv[q].get('loops'), known)
